@@ -758,6 +758,9 @@ class ExprMixin:
                     if isinstance(f.default, (list, dict)):
                         return PyList() if isinstance(f.default, list) else PyDict()
                     return K(f.default)
+        for ci in cls_list:
+            if name in ci.all_fields():
+                return t
         if name in ("split", "join", "format", "strip", "encode", "as_long", "startswith", "endswith",
                     "values", "keys", "items", "get", "copy", "strftime", "count", "size", "get_name", "get_kind",
                     "get_documentation"):
